@@ -448,8 +448,10 @@ def alias_and_size_layer(ck, n_cases):
     # position (return_number: 3 bits in formats 0-5, 4 bits in 6-10; classification: 5 bits vs a whole byte ...)
     import laspy
     for ci in range(n_cases):
-        name = ck.rng.choice(["return_number", "number_of_returns", "classification", "scan_direction_flag", "edge_of_flight_line", "synthetic", "withheld", "key_point"])
-        fa, fb = ck.rng.choice([(1, 6), (6, 1), (3, 7), (0, 6), (8, 2), (6, 7)])
+        names_ = ["return_number", "number_of_returns", "classification", "scan_direction_flag", "edge_of_flight_line", "synthetic", "withheld", "key_point"]
+        pairs_ = [(1, 6), (6, 1), (3, 7), (0, 6), (8, 2), (6, 7)]
+        name = names_[ci % len(names_)]                       # every field with every pair of formats in turn, whatever the seed
+        fa, fb = pairs_[(ci // len(names_)) % len(pairs_)]
         n = ck.rng.choice([3, 8])
         src, dst = new_record(fa, n, ck.rng), new_record(fb, n, ck.rng)
         if name not in [x[1] for x in subfields(fa)] or name not in [x[1] for x in subfields(fb)]:
@@ -657,7 +659,7 @@ def run(ck):
     spec_bits_layer(ck)
     single_byte_layer(ck)
     array_layer(ck, 300 if ck.tier == "quick" else 6000)
-    alias_and_size_layer(ck, 40 if ck.tier == "quick" else 600)
+    alias_and_size_layer(ck, 48 if ck.tier == "quick" else 600)
     siblings_and_multi_layer(ck, 48 if ck.tier == "quick" else 1200)
     growth_layer(ck, 18 if ck.tier == "quick" else 400)
     ck.failures.sort(key=lambda f: (f["input"]["kind"] != "single", abs(f["input"].get("value", 0)) if isinstance(f["input"].get("value"), int) else 0))
